@@ -23,6 +23,7 @@ package main
 
 import (
 	"fmt"
+	"os"
 	"go/token"
 	"go/types"
 	"sort"
@@ -565,12 +566,17 @@ func (e *Engine) reachable(f *ssa.Function) map[string]bool {
 	e.reachCache[f] = r
 	var visit func(g *ssa.Function)
 	seen := map[*ssa.Function]bool{}
+	var curIface *types.Interface
 	byName := func(name string, sig *types.Signature) {
 		for _, h := range e.funcs {
 			if h.Pkg == nil || !strings.HasPrefix(h.Pkg.Pkg.Path(), "github.com/google/badwolf") {
 				continue
 			}
 			if name != "" && h.Name() == name && h.Signature.Recv() != nil {
+				// only the methods of types that implement the interface the call goes through
+				if curIface != nil && !types.Implements(h.Signature.Recv().Type(), curIface) {
+					continue
+				}
 				visit(h)
 			}
 			if name == "" && sig != nil && e.addrTaken()[h] && types.Identical(h.Signature, sig) {
@@ -578,14 +584,37 @@ func (e *Engine) reachable(f *ssa.Function) map[string]bool {
 			}
 		}
 	}
+	var stack []string
 	visit = func(g *ssa.Function) {
 		if g == nil || seen[g] {
 			return
 		}
 		seen[g] = true
 		r[fnKey(g)] = true
+		if dbg := os.Getenv("GOWP_DEBUG_REACH"); dbg != "" && strings.Contains(fnKey(g), dbg) {
+			fmt.Fprintln(os.Stderr, "reach path:", strings.Join(append(stack, fnKey(g)), " -> "))
+		}
+		stack = append(stack, shortKey(fnKey(g)))
+		defer func() { stack = stack[:len(stack)-1] }()
+		inRepo := g.Pkg != nil && strings.HasPrefix(g.Pkg.Pkg.Path(), "github.com/google/badwolf")
+		if !inRepo && g.Pkg != nil {
+			switch g.Pkg.Pkg.Path() {
+			case "runtime", "reflect", "sync", "sync/atomic", "internal/abi", "internal/runtime/atomic", "syscall", "os":
+				return // the language run time: never calls into the repository on its own
+			}
+		}
 		for _, b := range g.Blocks {
 			for _, in := range b.Instrs {
+				if inRepo {
+					// functions used as values (passed to library code, stored): they may be called later
+					for _, op := range in.Operands(nil) {
+						if fnv, ok := (*op).(*ssa.Function); ok {
+							if ci, isCall := in.(ssa.CallInstruction); !isCall || ci.Common().Value != fnv {
+								visit(fnv)
+							}
+						}
+					}
+				}
 				var cc *ssa.CallCommon
 				switch i := in.(type) {
 				case *ssa.Call:
@@ -601,7 +630,11 @@ func (e *Engine) reachable(f *ssa.Function) map[string]bool {
 					continue
 				}
 				if cc.IsInvoke() {
+					// the interface method itself (its contract may define ghost state) and every implementation
+					r[methodKey(cc.Method)] = true
+					curIface, _ = cc.Value.Type().Underlying().(*types.Interface)
 					byName(cc.Method.Name(), nil)
+					curIface = nil
 					continue
 				}
 				switch c := cc.Value.(type) {
@@ -611,7 +644,10 @@ func (e *Engine) reachable(f *ssa.Function) map[string]bool {
 					visit(c.Fn.(*ssa.Function))
 				case *ssa.Builtin:
 				default:
-					if sig, ok := cc.Value.Type().Underlying().(*types.Signature); ok {
+					// a call through a function value: inside the repository any address-taken function
+					// with that signature; library code only calls back functions it was handed, and those
+					// are visited where they are created or passed (MakeClosure / function operands)
+					if sig, ok := cc.Value.Type().Underlying().(*types.Signature); ok && inRepo {
 						byName("", sig)
 					}
 				}
